@@ -273,6 +273,25 @@ pub fn replay(a: &Args) -> i32 {
             }
         }
     }
+    // (b'') a message that fails to encode half-way is an error for that call and leaves nothing behind:
+    // the calls after it (same thread, same client) deliver their own messages
+    {
+        let mut c1 = gen::root_greeter::greeter_client::GreeterClient::new(router.clone());
+        for round in 0..3u32 {
+            evaluations += 1;
+            let poisoned = rt.block_on(c1.say_hello(Msg { a: 0x4142_4344 + round, s: gen::POISON.into() }));
+            let ran = log.lock().unwrap().drain(..).collect::<Vec<_>>();
+            if poisoned.is_ok() || !ran.is_empty() {
+                mismatches.push(json!({"what": format!("a request message that cannot be encoded: result {:?}, handlers run {ran:?}", poisoned.map(|r| r.into_inner()).map_err(|s| s.status()))}));
+            }
+            let after = rt.block_on(c1.say_hello(Msg { a: 7 + round, s: "hi".into() }));
+            let ran = log.lock().unwrap().drain(..).collect::<Vec<_>>();
+            let ok = matches!(&after, Ok(r) if r.inner().a == 8 + round && r.inner().s == "Greeter.say_hello:hi");
+            if !ok || ran != vec!["Greeter.say_hello".to_string()] {
+                mismatches.push(json!({"what": format!("the call after a message that failed to encode: {:?}, handlers run {ran:?}", after.map(|r| r.into_inner()).map_err(|s| s.status()))}));
+            }
+        }
+    }
     // (b') every error code a handler may choose, with and without a message
     if let Some(rows) = tables.get("codegen_statuses").and_then(|v| v.as_array()) {
         for row in rows {
